@@ -251,6 +251,35 @@ def run(chk):
                 if abs(obj.BH_ret_dyn - want) > 1e-12 * max(abs(want), 1e-300):
                     chk.fail("reported dynamical retention equals retained over pre-ejection BH mass", case,
                              dict(reported=float(obj.BH_ret_dyn), expected=want))
+    # ---- complete constructions (real solver, real constructor): every age meets the target requested FOR IT, in any order of ages ----
+    emf, *_ = U.mods()
+    for r_ in range(3 if chk.tier == "quick" else 20):
+        ages = rng.sample([100.0, 500.0, 3000.0, 9000.0, 12000.0], rng.choice([2, 3]))
+        if r_ % 2 == 0:
+            ages = sorted(ages, reverse=True)
+        tg = [float(rng.choice([0.01, 0.02, 0.03, 0.005])) for _ in ages]
+        kwc = dict(m_breaks=[0.1, 0.5, 1.0, 100], a_slopes=[-0.5, -1.3, -2.5], nbins=[3, 3, 10], FeH=float(rng.choice([-1.0, -2.0])),
+                   tout=ages, esc_rate=float(rng.choice([0.0, -10.0])), N0=5e5, f_BH=tg)
+        if r_ == 1:
+            kwc["tout"], kwc["f_BH"] = np.array(ages), np.array(tg)
+        chk.note_distinct(dict(tout=ages, f_BH=tg))
+        try:
+            with warnings.catch_warnings():
+                warnings.simplefilter("ignore")
+                mc = emf.EvolvedMFWithBH.from_powerlaw(**kwc)
+        except ValueError as e:
+            chk.fail("reachable targets must not raise", dict(tout=ages, f_BH=tg), dict(error=str(e)[:100]))
+            continue
+        chk.count("complete constructions with per-age targets")
+        for a_, t_ in zip(ages, tg):
+            rows_ = np.flatnonzero(np.asarray(mc.tout) == a_)
+            i_ = list(ages).index(a_)
+            frac_row_i = float(mc.Mr.BH[i_].sum() / (mc.Ms[i_].sum() + sum(x[i_].sum() for x in mc.Mr)))
+            if abs(frac_row_i - t_) > 1e-6 * t_:
+                chk.fail("each row meets its own target", dict(tout=ages, f_BH=tg), dict(row=i_, age=a_, target=t_, fraction=frac_row_i,
+                                                                                       model_tout=[float(x) for x in mc.tout]))
+        if [float(x) for x in np.asarray(mc.tout)] != [float(x) for x in ages]:
+            chk.fail("rows are reported in the order the ages were requested", dict(tout=ages, f_BH=tg), dict(model_tout=[float(x) for x in mc.tout]))
     vals = C.eval_cases("C08p", IMPORTS, "", exprs)
     for (case, irow, gM, gN), v in zip(meta, vals):
         if v == "FbhErr":
